@@ -18,10 +18,13 @@ EXPLANATION = (
     "reader, the header / chunk parsers, and the per-event arms of MIDI_to_Composition with the file parser "
     "summarised) and the decoded fields must equal what the writer was given; framing tags, format number and "
     "division agree; files with a bad header tag, a bad track tag or an impossible format number are rejected with an "
-    "error; the tempo variable is checked for definite assignment (NOTE).")
+    "error; the tempo variable is checked for definite assignment (NOTE). The reader's event loop (delta times -> "
+    "entries, rests, bars) is specialised to ten rhythm shapes (leading / inner / bar-crossing rests, chords, two "
+    "meters, dotted and triplet lengths): the event stream the writer emits for the shape (C16's model, R-C17-W) is "
+    "fed to MIDI_to_Composition and the flattened result must be the shape.")
 TRUSTED = ["CPython ast module", "mingus_static abstract evaluator + MIDI byte-stream domain", "C16 (the writer's encoders are themselves checked against the SMF model)"]
-NOT_DECIDED = ("the bar-rebuilding state machine of MIDI_to_Composition (delta times -> entries, rests, bar-line splitting): a behavioural "
-               "translation; a track that begins with a rest coming back shifted is invisible to these rules")
+NOT_DECIDED = ("the bar-rebuilding loop of MIDI_to_Composition beyond the ten rhythm shapes it is specialised to (tick lengths are concrete "
+               "there, so this part is a finite case analysis, not an argument for every rhythm); several tracks with different meters")
 
 MI, MT, MF = "mingus.midi.midi_file_in", "mingus.midi.midi_track", "mingus.midi.midi_file_out"
 KEYS = "mingus.core.keys"
@@ -65,6 +68,7 @@ def run(ctx):
     rule_framing(ctx, rci)
     rule_events(ctx, rci)
     rule_meta(ctx, rci)
+    rule_rebuild(ctx, rci)
     rule_vlq(ctx, rci)
     rule_bpm_assignment(ctx, rci)
     # the round trip is reader o writer: the reader rules above decode exactly what the writer's primitives emit;
@@ -76,6 +80,7 @@ def run(ctx):
     ctx.floor("R-C17-2", 20)
     ctx.floor("R-C17-3", 30 + 5 + 1)
     ctx.floor("R-C17-4", 1)
+    ctx.floor("R-C17-6", 10)
 
 
 def reader_obj(rci):
@@ -236,6 +241,96 @@ def rule_meta(ctx, rci):
         except (AttributeError, KeyError, IndexError, TypeError) as e:
             ok, why = False, "cannot find the note in the rebuilt composition (%s)" % e
     ctx.check(ok, R, "name/program/note", fm.where(), "MIDI_to_Composition: track name, program change, note-on", why)
+
+
+REBUILD_SHAPES = [
+    # (label, meter, entries as (ticks, pitch numbers)), a rest is (); 72 ticks = a quarter note
+    ("three notes", (4, 4), [(72, (60,)), (72, (62,)), (144, (64,))]),
+    ("inner rest and chord", (4, 4), [(72, (60,)), (72, ()), (72, (64, 67)), (72, (60,))]),
+    ("leading rest", (4, 4), [(72, ()), (72, (60,)), (144, (64,))]),
+    ("two bars", (4, 4), [(144, (60,)), (144, (62,)), (288, (64,))]),
+    ("rest across the bar line", (4, 4), [(144, (60,)), (72, (62,)), (72, ()), (72, ()), (216, (64,))]),
+    ("first bar is a rest", (4, 4), [(288, ()), (144, (60,)), (144, (62,))]),
+    ("chord after a rest", (4, 4), [(144, (60,)), (72, ()), (72, (60, 64, 67))]),
+    ("three-four", (3, 4), [(72, (60,)), (72, (62,)), (72, (64,)), (216, (60, 67))]),
+    ("dotted and triplets", (4, 4), [(108, (60,)), (36, (62,)), (48, (64,)), (48, (65,)), (48, (67,))]),
+    ("eighths", (2, 4), [(36, (70,)), (36, (71,)), (36, ()), (36, (72,)), (144, (40, 47))]),
+]
+
+
+def _normalise(seq):
+    out = []
+    for t, ps in seq:
+        ps = tuple(sorted(ps))
+        if not ps and out and not out[-1][1]:
+            out[-1] = (out[-1][0] + t, ())
+        else:
+            out.append((t, ps))
+    while out and not out[-1][1]:
+        out.pop()
+    return out
+
+
+def rule_rebuild(ctx, rci):
+    """The reader's event loop (delta times -> entries, rests, bars), specialised to ten rhythm shapes: the event
+    stream the writer produces for the shape (C16's event model; each event decoded from the writer's own bytes) is
+    fed to MIDI_to_Composition and the rebuilt track, flattened, must be the shape again."""
+    from fractions import Fraction
+    R = "R-C17-6"
+    repo = ctx.repo
+    fm = repo.find_method(rci, "MIDI_to_Composition")
+    fe = repo.find_method(rci, "parse_midi_event")
+    cache = {}
+
+    def ev(method, args):
+        k = (method, tuple(args))
+        if k not in cache:
+            data = writer_bytes(repo, method, list(args))
+            p = explore(interp_factory(repo), lambda it: it.call_function(fe, [reader_obj(rci), md.AFile(data[1:])], {}))
+            if len(p) != 1 or p[0].kind != "return":
+                raise AnalysisError("reader cannot parse the writer's event %s%r" % (method, tuple(args)))
+            cache[k] = p[0].value[0]
+        return cache[k]
+    for label, meter, entries in REBUILD_SHAPES:
+        bar_ticks = 288 * meter[0] // meter[1]
+        events = [[0, ev("set_tempo_event", [120])]]
+        pending, at = 0, 0
+        for ticks, ps in entries:
+            if at % bar_ticks == 0:
+                events.append([pending, ev("time_signature_event", [meter])])
+                events.append([0, ev("key_signature_event", ["C"])])
+                pending = 0
+            if ps:
+                for k, pnum in enumerate(ps):
+                    events.append([pending if k == 0 else 0, ev("note_on", [1, pnum + 12, 64])])
+                for k, pnum in enumerate(ps):
+                    events.append([ticks if k == 0 else 0, ev("note_off", [1, pnum + 12, 64])])
+                pending = 0
+            else:
+                pending += ticks
+            at += ticks
+        key = "%s.MidiFile.parse_midi_file" % MI
+        summ = {key: lambda it, a, k, n, events=events: fake_file([list(e) for e in events])}
+        try:
+            p = explore(interp_factory(repo, summ), lambda it: it.call_function(fm, [reader_obj(rci), "file.mid"], {}))
+        except CannotDecide as e:
+            raise AnalysisError("MIDI_to_Composition on the shape %r: %s" % (label, e))
+        ok, why = len(p) == 1 and p[0].kind == "return" and isinstance(p[0].value, tuple), "outcome %s" % [(x.kind, short(repr(x.value), 80)) for x in p]
+        if ok:
+            try:
+                tr = p[0].value[0].attrs["tracks"][0]
+                got = []
+                for bar in tr.attrs["bars"]:
+                    for entry in bar.attrs["bar"]:
+                        cont = entry[2]
+                        ps = () if cont is None else tuple(12 * n.attrs["octave"] + nd.pitch_of_concrete(n.attrs["name"]) for n in cont.attrs["notes"])
+                        got.append((int(round(Fraction(288) / Fraction(entry[1]).limit_denominator(10000))), ps))
+                want = _normalise(entries)
+                if _normalise(got) != want:
+                    ok, why = False, "a track written as (ticks, pitches) %s comes back as %s" % (want, _normalise(got))
+            except (AttributeError, KeyError, IndexError, TypeError, ZeroDivisionError) as e:
+                ok, why = False, "cannot flatten the rebuilt composition (%s: %s)" % (type(e).__name__, e)
+        ctx.check(ok, R, "rebuild[%s]" % label, fm.where(), "MIDI_to_Composition(<%s>)" % label, why)
 
 
 def rule_vlq(ctx, rci):
